@@ -156,6 +156,9 @@ func scenC10(r *Run) {
 		return strings.Join(s, " ")
 	}
 	for i, g := range got {
+		if i >= len(ref) && !finite {
+			break // an endless chain: the reference was only unrolled this far
+		}
 		if i >= len(ref) {
 			r.Violate("C10", "sequence", "items-beyond-the-end", fmt.Sprintf("delivered %d items, the collection has %d; layout %s; got [%s] want [%s]", len(got), len(ref), l.Describe(), show(got), show(ref)))
 			return
